@@ -1116,10 +1116,10 @@ class Config:  # pylint: disable=too-many-instance-attributes
             cfg = field(self)
             cfg._key = key
             previous = self._data.get(key)
-            if isinstance(previous, Config) and previous.__keyfile and not cfg.__keyfile:
-                # the sub-configuration being replaced named its own key file: its secrets were
-                # encrypted with that key, so the new sub-configuration keeps using it
-                cfg.__keyfile = previous.__keyfile
+            if isinstance(previous, Config):
+                # the sub-configuration being replaced (or one below it) named its own key file:
+                # its secrets were encrypted with that key, so the new one keeps using it
+                cfg._adopt_keyfiles(previous)
             cfg.load_tree(value)  # load_tree will raise a ValidationError on error
             value = cfg
         else:
@@ -1130,6 +1130,22 @@ class Config:  # pylint: disable=too-many-instance-attributes
         self._data[key] = value
         self._default_value_keys.discard(key)
         return value
+
+    def _adopt_keyfiles(self, previous: "Config") -> None:
+        """
+        Take over the key files named by the configuration that this configuration replaces, at
+        every depth: a nested configuration that is about to be replaced in turn (loading a tree
+        builds new sub-configurations level by level) hands its key file on the same way.
+
+        :param previous: the configuration being replaced
+        """
+        if previous.__keyfile and not self.__keyfile:
+            self.__keyfile = previous.__keyfile
+
+        for key, old in previous._data.items():
+            new = self._data.get(key)
+            if isinstance(old, Config) and isinstance(new, Config):
+                new._adopt_keyfiles(old)
 
     def __setattr__(self, name: str, value: Any) -> Any:
         """
